@@ -1,1 +1,611 @@
-// Verification-only module (cfg(kani)); harnesses are added here.
+// Verification-only module (cfg(kani)); copied into the scratch copy of /repo by
+// /verif/engine/kani_run.py.
+//
+// C13 (key-schedule part) by a GHOST CRYPTO PROVIDER: `GhostProvider` implements
+// `CipherSuiteProvider`, records every call (operation, byte-exact arguments, requested
+// length) in a trace and answers call number k (k = 0, 1, ...) with the constant vector
+// [k+1; n].  The real functions of key_schedule.rs are run on symbolic inputs and the
+// trace is compared with the RFC 9420 section 8 formulas.  The expected `info` / `salt` /
+// `ikm` bytes are produced by the hand-written oracle below (`rfc_*`), which does not use
+// mls-rs-codec.  Because the inputs are universally quantified, "argument == [k+1; n]"
+// can only hold on every path if the code really passed the output of call k.
+//
+// SHARING: `mod verif_kani` is a private module of its parent file, so its items cannot be
+// named from the harness modules of other files.  The shared support code is therefore
+// wrapped in the exported macro `c13_ghost_support!`, defined once here and instantiated
+// by every harness module that needs it (`crate::c13_ghost_support!();`).
+use super::*;
+
+#[macro_export]
+macro_rules! c13_ghost_support {
+    () => {
+        /// KDF.Nh (kdf_extract_size), AEAD.Nk, AEAD.Nn and the hash / MAC output length of the
+        /// ghost suite.  Pairwise different so that a wrong size function shows up in the trace.
+        pub(crate) const NH: usize = 2;
+        pub(crate) const NK: usize = 3;
+        pub(crate) const NN: usize = 1;
+        pub(crate) const HASH_LEN: usize = 4;
+        pub(crate) const MAC_LEN: usize = 5;
+
+        #[derive(Clone, Copy, PartialEq, Eq, Debug)]
+        pub(crate) enum Op {
+            Extract, // a = salt, b = ikm
+            Expand,  // a = prk,  b = info, len = requested length
+            Hash,    // a = data
+            Mac,     // a = key,  b = data
+        }
+
+        pub(crate) struct Call {
+            pub op: Op,
+            pub a: ::alloc::vec::Vec<u8>,
+            pub b: ::alloc::vec::Vec<u8>,
+            pub len: usize,
+        }
+
+        #[derive(Debug)]
+        pub(crate) struct GhostError;
+
+        impl ::core::fmt::Display for GhostError {
+            fn fmt(&self, f: &mut ::core::fmt::Formatter<'_>) -> ::core::fmt::Result {
+                f.write_str("ghost")
+            }
+        }
+
+        impl ::std::error::Error for GhostError {}
+
+        impl ::mls_rs_core::error::IntoAnyError for GhostError {
+            // avoids format!() in the default into_any_error
+            fn into_dyn_error(
+                self,
+            ) -> Result<::std::boxed::Box<dyn ::std::error::Error + Send + Sync>, Self> {
+                Ok(::std::boxed::Box::new(self))
+            }
+        }
+
+        pub(crate) struct GhostHpke;
+
+        impl ::mls_rs_core::crypto::HpkeContextS for GhostHpke {
+            type Error = GhostError;
+            fn seal(
+                &mut self,
+                _aad: Option<&[u8]>,
+                _data: &[u8],
+            ) -> Result<::alloc::vec::Vec<u8>, GhostError> {
+                unimplemented!()
+            }
+            fn export(
+                &self,
+                _c: &[u8],
+                _len: usize,
+            ) -> Result<::zeroize::Zeroizing<::alloc::vec::Vec<u8>>, GhostError> {
+                unimplemented!()
+            }
+        }
+
+        impl ::mls_rs_core::crypto::HpkeContextR for GhostHpke {
+            type Error = GhostError;
+            fn open(
+                &mut self,
+                _aad: Option<&[u8]>,
+                _ct: &[u8],
+            ) -> Result<::zeroize::Zeroizing<::alloc::vec::Vec<u8>>, GhostError> {
+                unimplemented!()
+            }
+            fn export(
+                &self,
+                _c: &[u8],
+                _len: usize,
+            ) -> Result<::zeroize::Zeroizing<::alloc::vec::Vec<u8>>, GhostError> {
+                unimplemented!()
+            }
+        }
+
+        pub(crate) struct GhostProvider {
+            pub trace: ::core::cell::RefCell<::alloc::vec::Vec<Call>>,
+            /// index of the call that fails (the failing call is still recorded)
+            pub fail_at: Option<usize>,
+        }
+
+        // the harnesses are single threaded; the trait demands Send + Sync
+        unsafe impl Sync for GhostProvider {}
+
+        impl GhostProvider {
+            pub(crate) fn new() -> Self {
+                GhostProvider {
+                    trace: ::core::cell::RefCell::new(::alloc::vec::Vec::with_capacity(16)),
+                    fail_at: None,
+                }
+            }
+
+            pub(crate) fn failing_at(i: usize) -> Self {
+                let mut p = Self::new();
+                p.fail_at = Some(i);
+                p
+            }
+
+            fn record(&self, op: Op, a: &[u8], b: &[u8], len: usize) -> Result<u8, GhostError> {
+                let mut t = self.trace.borrow_mut();
+                let idx = t.len();
+                t.push(Call { op, a: a.to_vec(), b: b.to_vec(), len });
+                if self.fail_at == Some(idx) {
+                    return Err(GhostError);
+                }
+                Ok(idx as u8 + 1)
+            }
+
+            pub(crate) fn calls(&self) -> usize {
+                self.trace.borrow().len()
+            }
+
+            /// call `i` is exactly `op(a, b)` with requested length `len`
+            pub(crate) fn is(&self, i: usize, op: Op, a: &[u8], b: &[u8], len: usize) -> bool {
+                let t = self.trace.borrow();
+                i < t.len()
+                    && t[i].op == op
+                    && t[i].len == len
+                    && bytes_eq(&t[i].a, a)
+                    && bytes_eq(&t[i].b, b)
+            }
+
+            /// the output tag of THE call `op(a, b, len)`; None if there is none or more than one
+            pub(crate) fn find(&self, op: Op, a: &[u8], b: &[u8], len: usize) -> Option<u8> {
+                let n = self.calls();
+                let mut found = None;
+                let mut i = 0;
+                while i < n {
+                    if self.is(i, op, a, b, len) {
+                        if found.is_some() {
+                            return None;
+                        }
+                        found = Some(i as u8 + 1);
+                    }
+                    i += 1;
+                }
+                found
+            }
+        }
+
+        /// the answer of the call with tag `tag`: n bytes, all equal to `tag`
+        pub(crate) fn is_out(v: &[u8], tag: u8, n: usize) -> bool {
+            if v.len() != n {
+                return false;
+            }
+            let mut i = 0;
+            while i < n {
+                if v[i] != tag {
+                    return false;
+                }
+                i += 1;
+            }
+            true
+        }
+
+        pub(crate) fn out(tag: u8, n: usize) -> ::alloc::vec::Vec<u8> {
+            ::alloc::vec![tag; n]
+        }
+
+        pub(crate) fn bytes_eq(a: &[u8], b: &[u8]) -> bool {
+            if a.len() != b.len() {
+                return false;
+            }
+            let mut i = 0;
+            while i < a.len() {
+                if a[i] != b[i] {
+                    return false;
+                }
+                i += 1;
+            }
+            true
+        }
+
+        impl ::mls_rs_core::crypto::CipherSuiteProvider for GhostProvider {
+            type Error = GhostError;
+            type HpkeContextS = GhostHpke;
+            type HpkeContextR = GhostHpke;
+
+            fn cipher_suite(&self) -> ::mls_rs_core::crypto::CipherSuite {
+                ::mls_rs_core::crypto::CipherSuite::CURVE25519_AES128
+            }
+
+            fn hash(&self, data: &[u8]) -> Result<::alloc::vec::Vec<u8>, GhostError> {
+                let tag = self.record(Op::Hash, data, &[], 0)?;
+                Ok(::alloc::vec![tag; HASH_LEN])
+            }
+
+            fn mac(&self, key: &[u8], data: &[u8]) -> Result<::alloc::vec::Vec<u8>, GhostError> {
+                let tag = self.record(Op::Mac, key, data, 0)?;
+                Ok(::alloc::vec![tag; MAC_LEN])
+            }
+
+            fn aead_seal(
+                &self,
+                _key: &[u8],
+                _data: &[u8],
+                _aad: Option<&[u8]>,
+                _nonce: &[u8],
+            ) -> Result<::alloc::vec::Vec<u8>, GhostError> {
+                unimplemented!()
+            }
+
+            fn aead_open(
+                &self,
+                _key: &[u8],
+                _ciphertext: &[u8],
+                _aad: Option<&[u8]>,
+                _nonce: &[u8],
+            ) -> Result<::zeroize::Zeroizing<::alloc::vec::Vec<u8>>, GhostError> {
+                unimplemented!()
+            }
+
+            fn aead_key_size(&self) -> usize {
+                NK
+            }
+
+            fn aead_nonce_size(&self) -> usize {
+                NN
+            }
+
+            fn kdf_extract(
+                &self,
+                salt: &[u8],
+                ikm: &[u8],
+            ) -> Result<::zeroize::Zeroizing<::alloc::vec::Vec<u8>>, GhostError> {
+                let tag = self.record(Op::Extract, salt, ikm, 0)?;
+                Ok(::zeroize::Zeroizing::new(::alloc::vec![tag; NH]))
+            }
+
+            fn kdf_expand(
+                &self,
+                prk: &[u8],
+                info: &[u8],
+                len: usize,
+            ) -> Result<::zeroize::Zeroizing<::alloc::vec::Vec<u8>>, GhostError> {
+                let tag = self.record(Op::Expand, prk, info, len)?;
+                Ok(::zeroize::Zeroizing::new(::alloc::vec![tag; len]))
+            }
+
+            fn kdf_extract_size(&self) -> usize {
+                NH
+            }
+
+            fn hpke_seal(
+                &self,
+                _remote_key: &::mls_rs_core::crypto::HpkePublicKey,
+                _info: &[u8],
+                _aad: Option<&[u8]>,
+                _pt: &[u8],
+            ) -> Result<::mls_rs_core::crypto::HpkeCiphertext, GhostError> {
+                unimplemented!()
+            }
+
+            fn hpke_seal_psk(
+                &self,
+                _remote_key: &::mls_rs_core::crypto::HpkePublicKey,
+                _info: &[u8],
+                _aad: Option<&[u8]>,
+                _pt: &[u8],
+                _psk: ::mls_rs_core::crypto::HpkePsk<'_>,
+            ) -> Result<::mls_rs_core::crypto::HpkeCiphertext, GhostError> {
+                unimplemented!()
+            }
+
+            fn hpke_open(
+                &self,
+                _ciphertext: &::mls_rs_core::crypto::HpkeCiphertext,
+                _local_secret: &::mls_rs_core::crypto::HpkeSecretKey,
+                _local_public: &::mls_rs_core::crypto::HpkePublicKey,
+                _info: &[u8],
+                _aad: Option<&[u8]>,
+            ) -> Result<::zeroize::Zeroizing<::alloc::vec::Vec<u8>>, GhostError> {
+                unimplemented!()
+            }
+
+            fn hpke_open_psk(
+                &self,
+                _ciphertext: &::mls_rs_core::crypto::HpkeCiphertext,
+                _local_secret: &::mls_rs_core::crypto::HpkeSecretKey,
+                _local_public: &::mls_rs_core::crypto::HpkePublicKey,
+                _info: &[u8],
+                _aad: Option<&[u8]>,
+                _psk: ::mls_rs_core::crypto::HpkePsk<'_>,
+            ) -> Result<::zeroize::Zeroizing<::alloc::vec::Vec<u8>>, GhostError> {
+                unimplemented!()
+            }
+
+            fn hpke_setup_s(
+                &self,
+                _remote_key: &::mls_rs_core::crypto::HpkePublicKey,
+                _info: &[u8],
+            ) -> Result<(::alloc::vec::Vec<u8>, GhostHpke), GhostError> {
+                unimplemented!()
+            }
+
+            fn hpke_setup_r(
+                &self,
+                _kem_output: &[u8],
+                _local_secret: &::mls_rs_core::crypto::HpkeSecretKey,
+                _local_public: &::mls_rs_core::crypto::HpkePublicKey,
+                _info: &[u8],
+            ) -> Result<GhostHpke, GhostError> {
+                unimplemented!()
+            }
+
+            fn kem_derive(
+                &self,
+                _ikm: &[u8],
+            ) -> Result<
+                (::mls_rs_core::crypto::HpkeSecretKey, ::mls_rs_core::crypto::HpkePublicKey),
+                GhostError,
+            > {
+                unimplemented!()
+            }
+
+            fn kem_generate(
+                &self,
+            ) -> Result<
+                (::mls_rs_core::crypto::HpkeSecretKey, ::mls_rs_core::crypto::HpkePublicKey),
+                GhostError,
+            > {
+                unimplemented!()
+            }
+
+            fn kem_public_key_validate(
+                &self,
+                _key: &::mls_rs_core::crypto::HpkePublicKey,
+            ) -> Result<(), GhostError> {
+                unimplemented!()
+            }
+
+            fn random_bytes(&self, _out: &mut [u8]) -> Result<(), GhostError> {
+                unimplemented!()
+            }
+
+            fn signature_key_generate(
+                &self,
+            ) -> Result<
+                (
+                    ::mls_rs_core::crypto::SignatureSecretKey,
+                    ::mls_rs_core::crypto::SignaturePublicKey,
+                ),
+                GhostError,
+            > {
+                unimplemented!()
+            }
+
+            fn signature_key_derive_public(
+                &self,
+                _secret_key: &::mls_rs_core::crypto::SignatureSecretKey,
+            ) -> Result<::mls_rs_core::crypto::SignaturePublicKey, GhostError> {
+                unimplemented!()
+            }
+
+            fn sign(
+                &self,
+                _secret_key: &::mls_rs_core::crypto::SignatureSecretKey,
+                _data: &[u8],
+            ) -> Result<::alloc::vec::Vec<u8>, GhostError> {
+                unimplemented!()
+            }
+
+            fn verify(
+                &self,
+                _public_key: &::mls_rs_core::crypto::SignaturePublicKey,
+                _signature: &[u8],
+                _data: &[u8],
+            ) -> Result<(), GhostError> {
+                unimplemented!()
+            }
+        }
+
+        // ---------------------------------------------------------------- RFC 9420 oracle
+        // Written from the RFC text with plain byte arithmetic; no mls-rs-codec.
+
+        /// RFC 9420 section 2.1.2: length header of a `<V>` vector (RFC 9000 section 16
+        /// variable-length integer, minimal encoding, 1 / 2 / 4 byte forms).
+        pub(crate) fn rfc_varint(o: &mut ::alloc::vec::Vec<u8>, n: usize) {
+            if n < 64 {
+                o.push(n as u8);
+            } else if n < 16384 {
+                o.push(0x40 | (n >> 8) as u8);
+                o.push((n & 0xff) as u8);
+            } else {
+                o.push(0x80 | (n >> 24) as u8);
+                o.push(((n >> 16) & 0xff) as u8);
+                o.push(((n >> 8) & 0xff) as u8);
+                o.push((n & 0xff) as u8);
+            }
+        }
+
+        /// `opaque x<V>`
+        pub(crate) fn rfc_opaque(o: &mut ::alloc::vec::Vec<u8>, x: &[u8]) {
+            rfc_varint(o, x.len());
+            o.extend_from_slice(x);
+        }
+
+        pub(crate) fn rfc_u16(o: &mut ::alloc::vec::Vec<u8>, x: u16) {
+            o.push((x >> 8) as u8);
+            o.push((x & 0xff) as u8);
+        }
+
+        pub(crate) fn rfc_u32(o: &mut ::alloc::vec::Vec<u8>, x: u32) {
+            o.push((x >> 24) as u8);
+            o.push(((x >> 16) & 0xff) as u8);
+            o.push(((x >> 8) & 0xff) as u8);
+            o.push((x & 0xff) as u8);
+        }
+
+        pub(crate) fn rfc_u64(o: &mut ::alloc::vec::Vec<u8>, x: u64) {
+            rfc_u32(o, (x >> 32) as u32);
+            rfc_u32(o, (x & 0xffff_ffff) as u32);
+        }
+
+        /// RFC 9420 section 8:
+        /// struct { uint16 length; opaque label<V> = "MLS 1.0 " + Label; opaque context<V>; } KDFLabel;
+        pub(crate) fn rfc_kdf_label(
+            length: u16,
+            label: &[u8],
+            context: &[u8],
+        ) -> ::alloc::vec::Vec<u8> {
+            let mut o = ::alloc::vec::Vec::with_capacity(64);
+            rfc_u16(&mut o, length);
+            rfc_varint(&mut o, 8 + label.len());
+            // "MLS 1.0 "
+            o.extend_from_slice(&[0x4d, 0x4c, 0x53, 0x20, 0x31, 0x2e, 0x30, 0x20]);
+            o.extend_from_slice(label);
+            rfc_opaque(&mut o, context);
+            o
+        }
+
+        /// symbolic byte string of symbolic length 0..=N
+        pub(crate) fn any_bytes<const N: usize>() -> ::alloc::vec::Vec<u8> {
+            let a: [u8; N] = kani::any();
+            let n: usize = kani::any();
+            kani::assume(n <= N);
+            a[..n].to_vec()
+        }
+
+        /// symbolic byte string of length exactly N
+        pub(crate) fn any_exact<const N: usize>() -> ::alloc::vec::Vec<u8> {
+            let a: [u8; N] = kani::any();
+            a.to_vec()
+        }
+
+        /// no-op replacement for zeroize::optimization_barrier (inline asm is unsupported)
+        pub(crate) fn noop_barrier<T: ?Sized>(_val: &T) {}
+
+        pub(crate) fn is_provider_error<T>(r: &Result<T, $crate::client::MlsError>) -> bool {
+            matches!(r, Err($crate::client::MlsError::CryptoProviderError(_)))
+        }
+    };
+}
+
+crate::c13_ghost_support!();
+
+use crate::group::SecretTree;
+use mls_rs_core::extension::ExtensionList;
+
+// ============================================================ 1. ExpandWithLabel
+// RFC 9420 section 8:  ExpandWithLabel(Secret, Label, Context, Length) =
+//     KDF.Expand(Secret, KDFLabel, Length)
+// Domain: every Length in 0..=65535 (the range of KDFLabel.length), every secret / label /
+// context byte string of length <= 4 (values symbolic).  `None` stands for Length = KDF.Nh.
+#[kani::proof]
+#[kani::stub(zeroize::optimization_barrier, noop_barrier)]
+#[kani::unwind(24)]
+fn c13_kdf_expand_with_label_bounded_4() {
+    let p = GhostProvider::new();
+    let secret = any_bytes::<4>();
+    let label = any_bytes::<4>();
+    let context = any_bytes::<4>();
+    let len: usize = kani::any();
+    kani::assume(len <= 0xffff);
+    let explicit: bool = kani::any();
+
+    let r = kdf_expand_with_label(&p, &secret, &label, &context, explicit.then_some(len));
+    let want_len = if explicit { len } else { NH };
+
+    assert!(r.is_ok());
+    let o = r.unwrap();
+    kani::cover!(true);
+    kani::cover!(explicit && len == 0xffff && label.len() == 4 && context.len() == 4);
+    assert!(p.calls() == 1);
+    assert!(p.is(
+        0,
+        Op::Expand,
+        &secret,
+        &rfc_kdf_label(want_len as u16, &label, &context),
+        want_len
+    ));
+    // the provider's answer is returned unchanged (checked at an arbitrary position)
+    assert!(o.len() == want_len);
+    let i: usize = kani::any();
+    kani::assume(i < want_len);
+    assert!(o[i] == 1);
+    // up to 65535 bytes: do not run the zeroizing drop loop
+    core::mem::forget(o);
+}
+
+// a provider failure is reported as MlsError::CryptoProviderError, after exactly one call
+#[kani::proof]
+#[kani::stub(zeroize::optimization_barrier, noop_barrier)]
+#[kani::unwind(24)]
+fn c13_kdf_expand_with_label_provider_error_bounded_4() {
+    let p = GhostProvider::failing_at(0);
+    let secret = any_bytes::<4>();
+    let label = any_bytes::<4>();
+    let context = any_bytes::<4>();
+    let len: usize = kani::any();
+    kani::assume(len <= 0xffff);
+    let explicit: bool = kani::any();
+    let r = kdf_expand_with_label(&p, &secret, &label, &context, explicit.then_some(len));
+    kani::cover!(true);
+    assert!(is_provider_error(&r));
+    assert!(p.calls() == 1);
+    core::mem::forget(r);
+}
+
+// ============================================================ 2. DeriveSecret
+// DeriveSecret(Secret, Label) = ExpandWithLabel(Secret, Label, "", KDF.Nh)
+#[kani::proof]
+#[kani::stub(zeroize::optimization_barrier, noop_barrier)]
+#[kani::unwind(24)]
+fn c13_kdf_derive_secret_bounded_4() {
+    let p = GhostProvider::new();
+    let secret = any_bytes::<4>();
+    let label = any_bytes::<4>();
+    let r = kdf_derive_secret(&p, &secret, &label);
+    assert!(r.is_ok());
+    let o = r.unwrap();
+    kani::cover!(label.len() == 4 && secret.len() == 4);
+    assert!(p.calls() == 1);
+    assert!(p.is(0, Op::Expand, &secret, &rfc_kdf_label(NH as u16, &label, &[]), NH));
+    assert!(is_out(&o, 1, NH));
+}
+
+// ============================================================ 3. epoch secrets
+// RFC 9420 section 8, table 4 and figure 22: every secret of the epoch is
+// DeriveSecret(epoch_secret, label) for its own label; init_secret uses "init".
+fn derived(p: &GhostProvider, secret: &[u8], label: &[u8]) -> u8 {
+    let t = p.find(Op::Expand, secret, &rfc_kdf_label(NH as u16, label, &[]), NH);
+    assert!(t.is_some());
+    t.unwrap()
+}
+
+fn check_epoch_secrets(
+    p: &GhostProvider,
+    first_call: usize,
+    epoch_secret: &[u8],
+    tree_size: u32,
+    r: &KeyScheduleDerivationResult,
+) {
+    // exactly nine derivations from the epoch secret
+    assert!(p.calls() == first_call + 9);
+    let ks = &r.key_schedule;
+    assert!(is_out(&r.epoch_secrets.sender_data_secret, derived(p, epoch_secret, b"sender data"), NH));
+    assert!(is_out(&ks.exporter_secret, derived(p, epoch_secret, b"exporter"), NH));
+    assert!(is_out(&ks.external_secret, derived(p, epoch_secret, b"external"), NH));
+    assert!(is_out(&r.confirmation_key, derived(p, epoch_secret, b"confirm"), NH));
+    assert!(is_out(&ks.membership_key, derived(p, epoch_secret, b"membership"), NH));
+    assert!(is_out(r.epoch_secrets.resumption_secret.raw_value(), derived(p, epoch_secret, b"resumption"), NH));
+    assert!(is_out(&ks.authentication_secret, derived(p, epoch_secret, b"authentication"), NH));
+    assert!(is_out(&ks.init_secret.0, derived(p, epoch_secret, b"init"), NH));
+    // encryption_secret is the root of the epoch's secret tree
+    let enc = derived(p, epoch_secret, b"encryption");
+    let want_tree = SecretTree::new(tree_size, Zeroizing::new(out(enc, NH)));
+    assert!(r.epoch_secrets.secret_tree == want_tree);
+}
+
+#[kani::proof]
+#[kani::stub(zeroize::optimization_barrier, noop_barrier)]
+#[kani::unwind(32)]
+fn c13_from_epoch_secret() {
+    let p = GhostProvider::new();
+    let epoch_secret = any_exact::<NH>();
+    let tree_size: u32 = 4;
+    let r = KeySchedule::from_epoch_secret(&p, &epoch_secret, tree_size);
+    assert!(r.is_ok());
+    let r = r.ok().unwrap();
+    kani::cover!(true);
+    check_epoch_secrets(&p, 0, &epoch_secret, tree_size, &r);
+    assert!(r.joiner_secret.0.is_empty());
+}
